@@ -96,6 +96,11 @@ func newC10Sys(cfg drv.Config, maxD int) (*c10Sys, error) {
 		}
 	}
 	for _, bn := range c10BucketNames {
+		if len(cfg.HostBases) > 0 && strings.Contains(bn, ".") {
+			// "<bucket>.<base>" with a dot in the bucket is not a single label: such a
+			// host falls back to path-style (C16) and would address another bucket
+			continue
+		}
 		for _, k := range c10Keys(cfg.Kind) {
 			if bn != "aaa" && bn != "bbb" && k != "x" && k != "../aaa/x" && k != "bucket/aaa" && k != "w/y" && k != "aaa/x" && k != "bbb/x" {
 				continue // internal bucket names: a few keys are enough
@@ -509,12 +514,14 @@ func runC10(c *engine.Ctx) {
 		cfgs = append(cfgs, drv.Config{Kind: drv.MultiDir, NoVersioning: true}, drv.Config{Kind: drv.SingleDir, NoVersioning: true}) // depth 1, see below
 	}
 	cfgs = append(cfgs, drv.Config{Kind: drv.Bolt, AutoBucket: true}, drv.Config{Kind: drv.MultiMem, AutoBucket: true}, drv.Config{Kind: drv.Mem, AutoBucket: true})
+	// the same hostile keys addressed host-style (the driver rewrites /<bucket>/<key> to Host <bucket>.<base>, path /<key>)
+	cfgs = append(cfgs, drv.Config{Kind: drv.Mem, HostBases: []string{drv.HostBase}}, drv.Config{Kind: drv.MultiMem, HostBases: []string{drv.HostBase}})
 	c.SpecBudget = c.Budget() / time.Duration(len(cfgs))
 	for _, cfg := range cfgs {
 		cfg := cfg
 		name := "C10/" + worldName(cfg)
 		d := maxD
-		if cfg.AutoBucket || (quick(c) && cfg.Kind.IsDir()) {
+		if cfg.AutoBucket || (quick(c) && cfg.Kind.IsDir()) || cfg.HostBucket || len(cfg.HostBases) > 0 {
 			d = 1
 		}
 		engine.RunSeq(c, engine.SeqSpec{Name: name, World: worldName(cfg), MaxDepth: d, NoCheck0: false,
